@@ -369,31 +369,6 @@ def h_option_flatten(pattern, deep, cls='IndexedOptionArray64', variant=True):
         sym = '_ZNK7awkward13UnmaskedArray21offsets_and_flattenedEll'
     nc.m.record('ret', {})
     out = nc.m.call(sym, [Ptr('ret', 0), this, BV(2 if deep else 1), BV(0)])
-    obls = [('flatten does not raise', out.raised)]
-    offs, _ = nc.index_terms(out.mem, Ptr('ret', 0), 'returned offsets')
-    res = decode(nc, out.mem, nc.m.cell('ret', 56))
-    if deep:
-        obls.append(('no offsets are returned below the list level', z3.BoolVal(len(offs) != 0)))
-        obls += compare(value(res), [NONE if miss else Elem(FLAT(idx[i])) for i, miss in enumerate(pattern)])
-    else:
-        want = [BV(0)]
-        for i, miss in enumerate(pattern):
-            want.append(want[-1] if miss else z3.simplify(want[-1] + LEN(idx[i])))
-        if len(offs) != len(want):
-            obls.append(('offsets have one entry per list plus one (%d, not %d)' % (len(want), len(offs)), z3.BoolVal(True)))
-        else:
-            for i, (a, b) in enumerate(zip(offs, want)):
-                obls.append(('offsets[%d]: a missing list is an empty list, a present one keeps its length' % i, a != b))
-        if res['cls'] != 'opaque':
-            raise Unsupported('flattened content is not the content handed back by the inner flatten')
-        j = z3.BitVec('j!pos', 64)
-        body = BV(-7)
-        for i in reversed(range(n)):
-            if not pattern[i]:
-                body = z3.If(j < want[i + 1], ITEM(idx[i], j - want[i]), body)
-        obls.append(('the flattened content has the summed length', res['length'] != want[-1]))
-        obls.append(('flattened item j is item (j - start) of the list that covers j', z3.And(j >= 0, j < want[-1], z3.Select(res['atoms'], j) != body)))
-
     def replay(model, ent):
         iv = [model.eval(x, model_completion=True).as_signed_long() for x in idx]
         if cls != 'IndexedOptionArray64':
@@ -428,6 +403,36 @@ def h_option_flatten(pattern, deep, cls='IndexedOptionArray64', variant=True):
             exp = [x for v in iv if v >= 0 for x in inner[v]]
             prog = head + node + 'flatten 1'
         return akrun_check(prog, exp, '%s(valid entries -> content %s; content of %d lists)::flatten(axis=%d)' % (cls, iv, lc, 2 if deep else 1))
+    obls = [('flatten does not raise', out.raised)]
+    try:
+        offs, _ = nc.index_terms(out.mem, Ptr('ret', 0), 'returned offsets')
+        res = decode(nc, out.mem, nc.m.cell('ret', 56))
+    except (KeyError, Unsupported, AttributeError) as err:
+        # nothing readable where the answer should be: fine when every path raised (reported above), inconclusive otherwise
+        return mdischarge(nc.m, '%s::offsets_and_flattened pattern=%s %s' % (cls, ''.join('N' if p else 'v' for p in pattern), 'below' if deep else 'at list level'),
+                          obls + [('an answer that can be read back (%s)' % str(err)[:60], z3.Not(out.raised))], [], replay=replay, prefer=[nc.lencontent <= 6] + [x >= -2 for x in idx if not isinstance(x, int)])
+    if deep:
+        obls.append(('no offsets are returned below the list level', z3.BoolVal(len(offs) != 0)))
+        obls += compare(value(res), [NONE if miss else Elem(FLAT(idx[i])) for i, miss in enumerate(pattern)])
+    else:
+        want = [BV(0)]
+        for i, miss in enumerate(pattern):
+            want.append(want[-1] if miss else z3.simplify(want[-1] + LEN(idx[i])))
+        if len(offs) != len(want):
+            obls.append(('offsets have one entry per list plus one (%d, not %d)' % (len(want), len(offs)), z3.BoolVal(True)))
+        else:
+            for i, (a, b) in enumerate(zip(offs, want)):
+                obls.append(('offsets[%d]: a missing list is an empty list, a present one keeps its length' % i, a != b))
+        if res['cls'] != 'opaque':
+            raise Unsupported('flattened content is not the content handed back by the inner flatten')
+        j = z3.BitVec('j!pos', 64)
+        body = BV(-7)
+        for i in reversed(range(n)):
+            if not pattern[i]:
+                body = z3.If(j < want[i + 1], ITEM(idx[i], j - want[i]), body)
+        obls.append(('the flattened content has the summed length', res['length'] != want[-1]))
+        obls.append(('flattened item j is item (j - start) of the list that covers j', z3.And(j >= 0, j < want[-1], z3.Select(res['atoms'], j) != body)))
+
     return mdischarge(nc.m, '%s::offsets_and_flattened pattern=%s %s%s' % (cls, ''.join('N' if p else 'v' for p in pattern), 'below' if deep else 'at list level', '' if cls != 'ByteMaskedArray' else ' valid_when=%s' % variant), obls,
                       ([('index is not the identity', z3.Or([idx[i] != i for i in range(n) if not pattern[i]] + [z3.BoolVal(False)]))] if not all(pattern) and cls == 'IndexedOptionArray64' else []) + ([('a content longer than the node', nc.lencontent > n)] if cls == 'ByteMaskedArray' else []),
                       replay=replay, prefer=[nc.lencontent <= 6] + [x >= -2 for x in idx],
